@@ -9,27 +9,29 @@ import (
 
 // Profile tunes the generator (swarm style: drawn per scenario).
 type Profile struct {
-	Paths       int     // 1..4
-	FilesPer    int     // files per path
-	MaxDepth    int     // block nesting
-	MaxAttrs    int     // attributes per body (upper bound)
-	BigBody     bool    // one body with 13..40 same-shape addressable attributes
-	ManyTargets int     // >0: generate this many addressable declarations (limit tests)
-	Hooks       bool    // completion hooks on string attributes
-	Multibyte   bool    // multi-byte characters in strings/comments
-	Layout      bool    // layout noise
-	Violations  float64 // probability of injecting a non-conforming item
-	Terraformy  bool    // include the terraform-like block zoo
-	CrossPath   bool    // path origins / implied origins between paths
-	JSONTwin    bool    // restrict to the fragment expressible in JSON
-	Functions   int     // number of functions
-	ExprDepth   int
-	DepBodies   bool
-	Ext         bool
-	Odd         bool // schemas that are legal but unusual (no body, clashes, nested targetables)
-	NoSchema    bool    // path context without a schema
-	ClonePath   bool    // append a copy of path 0 under another directory (same files, same offsets)
-	HalfTyped   float64 // probability that an any-expression is an unfinished piece of text (as left while typing)
+	Paths         int     // 1..4
+	FilesPer      int     // files per path
+	MaxDepth      int     // block nesting
+	MaxAttrs      int     // attributes per body (upper bound)
+	BigBody       bool    // one body with 13..40 same-shape addressable attributes
+	ManyTargets   int     // >0: generate this many addressable declarations (limit tests)
+	Hooks         bool    // completion hooks on string attributes
+	Multibyte     bool    // multi-byte characters in strings/comments
+	Layout        bool    // layout noise
+	Violations    float64 // probability of injecting a non-conforming item
+	Terraformy    bool    // include the terraform-like block zoo
+	CrossPath     bool    // path origins / implied origins between paths
+	JSONTwin      bool    // restrict to the fragment expressible in JSON
+	Functions     int     // number of functions
+	ExprDepth     int
+	DepBodies     bool
+	Ext           bool
+	Odd           bool    // schemas that are legal but unusual (no body, clashes, nested targetables)
+	NoSchema      bool    // path context without a schema
+	DistinctNames bool    // no two paths hold a file of the same name
+	SiblingLang   bool    // append a path with the directory of path 0 and another language id (terraform + terraform-vars)
+	ClonePath     bool    // append a copy of path 0 under another directory (same files, same offsets)
+	HalfTyped     float64 // probability that an any-expression is an unfinished piece of text (as left while typing)
 }
 
 type Gen struct {
@@ -558,6 +560,7 @@ func (g *Gen) functions() []*FuncSpec {
 		{Name: "join", Params: []ParamSpec{{Name: "sep", Type: "string"}}, VarParam: &ParamSpec{Name: "lists", Type: "list(string)"}, Return: "string"},
 		{Name: "tolist", Params: []ParamSpec{{Name: "v", Type: "any"}}, Return: "list(any)"},
 		{Name: "now", Return: "string"},
+		{Name: "element", Params: []ParamSpec{{Name: "list", Type: "list(any)"}, {Name: "index", Type: "number"}}, Return: "any"},
 		{Name: "max", VarParam: &ParamSpec{Name: "numbers", Type: "number"}, Return: "number"},
 		{Name: "provider::aws::arn_parse", Params: []ParamSpec{{Name: "arn", Type: "string"}}, Return: "object({a=string,b=number})"},
 		{Name: "merge", VarParam: &ParamSpec{Name: "maps", Type: "any"}, Return: "any"},
